@@ -94,7 +94,7 @@ pub fn run(rep: &mut Rep) {
     cmds.push((0x41, "CredentialManagement(0x41)", cm));
     let mut case = 0u64;
     for (cmd, name, s) in &cmds {
-        let n = rep.n(48, 3000);
+        let n = rep.n(48, 10_000);
         for i in 0..n * rep.nshards {
             case += 1;
             if !rep.mine(case) {
